@@ -227,8 +227,10 @@ class Ctx:
         cov.update(extra or {})
         ev = {"property_id": self.pid, "tier": self.tier, "seed": self.seed, "level": level, "coverage": cov,
               "assumptions": self.assumptions, "wall_s": round(time.time() - self.t0, 2), "violations": len(seen)}
-        os.makedirs(os.path.join(VERIF, "evidence"), exist_ok=True)
-        with open(os.path.join(VERIF, "evidence", self.pid + ".json"), "w") as fh:
+        # evidence/<id>.json describes runs against /repo itself; a run against a scratch copy (seeded change) leaves it alone
+        evdir = os.path.join(VERIF, "evidence") if os.path.realpath(REPO) == "/repo" else self.work
+        os.makedirs(evdir, exist_ok=True)
+        with open(os.path.join(evdir, self.pid + ".json"), "w") as fh:
             json.dump(ev, fh, indent=1)
         for l in lines:
             print(l)
